@@ -28,6 +28,7 @@ import os
 
 from vlib.core import COQ, REPO
 from vlib.py2coq import write_if_changed
+from vlib import astnorm as N
 
 
 class SourceShapeError(Exception):
@@ -208,15 +209,17 @@ def effects(cv, fn, spec, cidx, depth=0):
                     out.extend(sub)
                     notes.append(f"{fn.name}: rebuild guarded by `{ast.unparse(t)}` (holds once __init__ has run)")
                     return True
-            # if not hasattr(self, "_a"): self._a = v  else: <no store>
-            if isinstance(t, ast.UnaryOp) and isinstance(t.op, ast.Not) and isinstance(t.operand, ast.Call) \
-                    and ast.unparse(t.operand.func) == "hasattr" and len(t.operand.args) == 2 \
-                    and ast.unparse(t.operand.args[0]) == self_ and isinstance(t.operand.args[1], ast.Constant) \
-                    and t.operand.args[1].value in attrs and len(s.body) == 1 and isinstance(s.body[0], ast.Assign) \
-                    and self_attr(s.body[0].targets[0], self_) == t.operand.args[1].value \
+            # if not hasattr(self, "_a"): self._a = v  else: <no store>     (either polarity)
+            neg = isinstance(t, ast.UnaryOp) and isinstance(t.op, ast.Not)
+            h = t.operand if neg else t
+            first, other = (s.body, s.orelse) if neg else (s.orelse, s.body)
+            if isinstance(h, ast.Call) and ast.unparse(h.func) == "hasattr" and len(h.args) == 2 \
+                    and ast.unparse(h.args[0]) == self_ and isinstance(h.args[1], ast.Constant) \
+                    and h.args[1].value in attrs and len(first) == 1 and isinstance(first[0], ast.Assign) \
+                    and self_attr(first[0].targets[0], self_) == h.args[1].value \
                     and not any(self_attr(n, self_) and isinstance(getattr(n, "ctx", None), ast.Store)
-                                for b in s.orelse for n in ast.walk(b)):
-                notes.append(f"{fn.name}: {t.operand.args[1].value} is stored only while it does not exist yet "
+                                for b in other for n in ast.walk(b)):
+                notes.append(f"{fn.name}: {h.args[1].value} is stored only while it does not exist yet "
                              f"(construction); afterwards the setter leaves the object alone")
                 return True
         return False
@@ -282,6 +285,14 @@ def table(spec):
         fn = cv.setters.get(sname)
         if fn is None:
             raise SourceShapeError(f"{spec['cls']}.{sname} setter not found")
+        # normal form first (vlib/astnorm.py): helper methods inlined, guard clauses and nested ifs as one decision
+        # tree, aliases / single-use temporaries removed, setattr(self, "<const>", v) as an assignment
+        plain = {k: v for k, v in cv.methods.items() if not v.decorator_list or
+                 [ast.unparse(d) for d in v.decorator_list] in (["staticmethod"], ["classmethod"])}
+        try:
+            fn = N.normal(fn, plain)
+        except N.NormError as e:
+            raise SourceShapeError(f"{spec['cls']}.{sname} setter: {e}")
         main, tail, stored, ns = effects(cv, fn, spec, cidx)
         notes += ns
         if stored is not None and stored != attr:
